@@ -252,6 +252,15 @@ def confirm_failure(res, findings, key, path, msg, unit=None):
     runs = (unit or {}).get("confirm_runs", 3)
     r = replay_file(path, runs, timeout_ms=(unit or {}).get("timeout_ms"), prop=res.prop)
     need = (unit or {}).get("confirm", 2)
+    if r["fails"] < need and os.path.exists(path + ".orig"):
+        # the shrunk case does not fail in a fresh process: try the case that failed first (before shrinking)
+        orig = path[:-5] + "-orig.json" if path.endswith(".json") else path + "-orig.json"
+        os.replace(path + ".orig", orig)
+        r2 = replay_file(orig, runs, timeout_ms=(unit or {}).get("timeout_ms"), prop=res.prop)
+        if r2["fails"] >= need:
+            path, r = orig, r2
+            key = r2["key"] or key
+            msg = r2["msg"] or msg
     if r["fails"] < need:
         res.notes.append("FLAKY: %s failed in search but reproduced %d/%d (%s)" % (key, r["fails"], runs, path))
         log("flaky, not reported:", key, r)
